@@ -12,7 +12,7 @@ Lean name, the representation of its parameters and of its return type (FUNCS), 
 """
 import sys, os, re, json, argparse, hashlib
 sys.path.insert(0, os.path.dirname(os.path.abspath(__file__)))
-from rsparse import Unsupported, find_fn, parse_fn, consts
+from rsparse import Unsupported, find_fn, parse_fn, consts, LEANKW
 
 # ---------------------------------------------------------------------------------------------------
 # what is translated
@@ -49,9 +49,28 @@ FUNCS = [
          imports=['GetRange', 'GetRangeFrom', 'GetRangeTo', 'GetRangeFull', 'GetRangeIncl', 'GetRangeToIncl']),
 ]
 
+PTR_IMPL = r"impl Pointer \{"
+FUNCS += [
+    dict(id='IsRoot', file='src/pointer.rs', fn='is_root', impl=PTR_IMPL, lean='Pointer.is_root', params=[('self', 'ptrself')], ret='pure', rtype='Bool'),
+    dict(id='Count', file='src/pointer.rs', fn='count', impl=PTR_IMPL, lean='Pointer.count', params=[('self', 'ptrself')], ret='pure', rtype='Nat'),
+    dict(id='Back', file='src/pointer.rs', fn='back', impl=PTR_IMPL, lean='Pointer.back', params=[('self', 'ptrself')], ret='pure', rtype='Option Bytes'),
+    dict(id='Front', file='src/pointer.rs', fn='front', impl=PTR_IMPL, lean='Pointer.front', params=[('self', 'ptrself')], ret='pure', rtype='Option Bytes', imports=['IsRoot']),
+    dict(id='SplitFront', file='src/pointer.rs', fn='split_front', impl=PTR_IMPL, lean='Pointer.split_front', params=[('self', 'ptrself')], ret='pure', rtype='Option (Bytes × Bytes)', imports=['IsRoot']),
+    dict(id='SplitAt', file='src/pointer.rs', fn='split_at', impl=PTR_IMPL, lean='Pointer.split_at', params=[('self', 'ptrself'), ('offset', 'nat')], ret='pure', rtype='Option (Bytes × Bytes)'),
+    dict(id='SplitBack', file='src/pointer.rs', fn='split_back', impl=PTR_IMPL, lean='Pointer.split_back', params=[('self', 'ptrself')], ret='pure', rtype='Option (Bytes × Bytes)'),
+    dict(id='Parent', file='src/pointer.rs', fn='parent', impl=PTR_IMPL, lean='Pointer.parent', params=[('self', 'ptrself')], ret='pure', rtype='Option Bytes'),
+    dict(id='StripSuffix', file='src/pointer.rs', fn='strip_suffix', impl=PTR_IMPL, lean='Pointer.strip_suffix', params=[('self', 'ptrself'), ('suffix', 'ptrself')], ret='pure', rtype='Option Bytes'),
+    dict(id='StripPrefix', file='src/pointer.rs', fn='strip_prefix', impl=PTR_IMPL, lean='Pointer.strip_prefix', params=[('self', 'ptrself'), ('prefix', 'ptrself')], ret='pure', rtype='Option Bytes'),
+    dict(id='EndsWith', file='src/pointer.rs', fn='ends_with', impl=PTR_IMPL, lean='Pointer.ends_with', params=[('self', 'ptrself'), ('other', 'ptrself')], ret='pure', rtype='Bool', imports=['IsRoot']),
+    dict(id='StartsWith', file='src/pointer.rs', fn='starts_with', impl=PTR_IMPL, lean='Pointer.starts_with', params=[('self', 'ptrself'), ('other', 'ptrself')], ret='resval', rtype='Res Unit Bool'),
+    dict(id='Intersection', file='src/pointer.rs', fn='intersection', impl=PTR_IMPL, lean='Pointer.intersection', params=[('self', 'ptrself'), ('other', 'ptrself')], ret='pure', rtype='Bytes', imports=['IsRoot', 'SplitAt']),
+]
+SIBLINGS = {'is_root': ('Pointer.is_root', 'bool'), 'count': ('Pointer.count', 'nat'), 'split_at': ('Pointer.split_at', 'opt(tuple:bytes,bytes)'),
+            'front': ('Pointer.front', 'opt(bytes)'), 'back': ('Pointer.back', 'opt(bytes)')}
+
 LEANTY = {'nat': 'Nat', 'bool': 'Bool', 'bytes': 'Bytes', 'cow': 'Cow', 'optnat': 'Option Nat', 'toklist': 'List Bytes',
           'tok': 'Bytes', 'index': 'Index', 'bound': 'Bound', 'ptr': 'Bytes', 'span': 'Span', 'tokself': 'Bytes',
-          'intocow': 'Bytes', 'unit': 'Unit'}
+          'intocow': 'Bytes', 'unit': 'Unit', 'ptrself': 'Bytes'}
 
 # enums the subset may match on / construct: type tag -> [(lean ctor, [rust paths], [field types])]
 ENUMS = {
@@ -68,6 +87,11 @@ UNITCTORS = {
 
 PANIC_IDX = '.panic "index out of bounds"'
 PANIC_SLICE = '.panic "slice index out of range"'
+
+BYTESLIKE = ('bytes', 'tok', 'ptr', 'ptrself')
+def is_opt(ty): return ty == 'optnat' or ty.startswith('opt(')
+def opt_inner(ty): return 'nat' if ty == 'optnat' else ty[4:-1]
+def mk_opt(inner): return 'optnat' if inner == 'nat' else f'opt({inner})'
 
 class Ctx:
     def __init__(self, ret, cont=None, brk=None):
@@ -230,6 +254,10 @@ class Fn:
         if t == 'byte': return k(str(e[1]), 'nat')
         if t == 'bstr': return k('[' + ', '.join(map(str, e[1])) + ']', 'bytes')
         if t == 'bool': return k('true' if e[1] else 'false', 'bool')
+        if t == 'char':
+            if len(e[1].encode('utf-8')) != 1: raise Unsupported("non-ASCII char literal")
+            return k(str(ord(e[1])), 'nat')
+        if t == 'closure': raise Unsupported("closure outside a known combinator")
         if t == 'path':
             segs = e[1]; ps = self.pathstr(segs)
             if len(segs) == 1:
@@ -269,7 +297,7 @@ class Fn:
                     ty = env[key]
                     return k(ty.split(':')[1], ty.split(':')[2])
             if f == '0':
-                return self.E(recv, env, ctx, lambda a, ta: k(a, ta) if ta == 'ptr' else (_ for _ in ()).throw(Unsupported("tuple field")))
+                return self.E(recv, env, ctx, lambda a, ta: k(a, 'bytes' if ta == 'ptrself' else ta) if ta in ('ptr', 'ptrself') else (_ for _ in ()).throw(Unsupported("tuple field")))
             raise Unsupported("field ." + f)
         if t == 'tuple':
             def go(i, acc):
@@ -300,13 +328,14 @@ class Fn:
             if f[0] != 'path': raise Unsupported("call of a non-path")
             ps = self.pathstr(f[1]); args = e[2]
             if ps == 'Some' and len(args) == 1:
-                return self.E(args[0], env, ctx, lambda a, ta: k(f"(some {a})", 'opt' + ta if ta in ('nat', 'span') else 'opt:' + ta))
+                return self.E(args[0], env, ctx, lambda a, ta: k(f"(some {a})", mk_opt('bytes' if ta in BYTESLIKE else ta)))
             if ps in ('Vec::with_capacity', 'String::with_capacity') and len(args) == 1:
                 return k('([] : Bytes)', 'bytes')
             if ps in ('Vec::new', 'String::new') and not args: return k('([] : Bytes)', 'bytes')
             if ps in ('String::from_utf8_unchecked', 'core::str::from_utf8_unchecked', 'str::from_utf8_unchecked',
-                      'Pointer::new_unchecked', 'Self::new_unchecked') and len(args) == 1:
-                return self.E(args[0], env, ctx, k)
+                      'Pointer::new_unchecked', 'Self::new_unchecked', 'Token::from_encoded_unchecked') and len(args) == 1:
+                return self.E(args[0], env, ctx, lambda a, ta: k(a, 'bytes' if ta in BYTESLIKE else ta))
+            if ps in ('Self::root', 'Pointer::root') and not args: return k('([] : Bytes)', 'bytes')
             if ps == 'Cow::Owned' and len(args) == 1:
                 return self.E(args[0], env, ctx, lambda a, ta: k(f"(Cow.owned {a})", 'cow') if ta in ('bytes', 'tok') else self.bad("Cow::Owned of " + ta))
             if ps == 'Cow::Borrowed' and len(args) == 1:
@@ -344,10 +373,39 @@ class Fn:
             raise Unsupported("struct literal " + ps)
         if t == 'mcall':
             return self.mcall(e, env, ctx, k)
-        if t == 'block' and not e[1] and e[2] is not None:
-            return self.E(e[2], env, ctx, k)
+        if t == 'block' and e[2] is not None:
+            if not e[1]: return self.E(e[2], env, ctx, k)
+            if all(st[0] == 'let' for st in e[1]):
+                return paren(self.S(list(e[1]), env, ctx, lambda env2: self.E(e[2], env2, ctx, k)))
+            raise Unsupported("block expression with statements")
         raise Unsupported("expression " + t)
 
+    def term(self, e, env):
+        """translate a pure expression to a Lean term (let-chains and matches allowed); returns (term, type)"""
+        out = []
+        def nope(t): raise Unsupported("control flow inside a closure or value expression")
+        code = self.E(e, env, Ctx(nope), lambda a, ta: (out.append(ta) or a))
+        if not out: raise Unsupported("value expression")
+        if any(t != out[0] for t in out): raise Unsupported("value expression of varying type")
+        return (paren(code) if ('\n' in code and not code.startswith('(')) else code), out[0]
+    def closure_head(self, cl, inner, env):
+        """(lean binder, env inside) for a one-parameter closure applied to a value of type `inner`"""
+        if len(cl[1]) != 1: raise Unsupported("closure arity")
+        p = self.strip_ref(cl[1][0]); env2 = dict(env)
+        if p[0] == 'pbind':
+            env2[p[1]] = inner; return p[1], env2
+        if p[0] == 'pwild': return '_', env2
+        if p[0] == 'ptuple' and inner.startswith('tuple:'):
+            tys = inner.split(':', 1)[1].split(',')
+            if len(tys) != len(p[1]): raise Unsupported("closure tuple arity")
+            names = []
+            for q, t2 in zip(p[1], tys):
+                q = self.strip_ref(q)
+                if q[0] == 'pbind': env2[q[1]] = t2; names.append(q[1])
+                elif q[0] == 'pwild': names.append('_')
+                else: raise Unsupported("closure pattern")
+            return '(' + ', '.join(names) + ')', env2
+        raise Unsupported("closure pattern")
     def bad(self, what):
         raise Unsupported(what)
 
@@ -371,10 +429,10 @@ class Fn:
             return self.E(recv, env, ctx, after)
         def after(r, tr):
             if name == 'len' and not args:
-                if tr in ('bytes', 'tok', 'ptr'): return k(f"{r}.length", 'nat')
+                if tr in BYTESLIKE: return k(f"{r}.length", 'nat')
                 if tr == 'cow': return k(f"{r}.bytes.length", 'nat')
             if name in ('bytes', 'as_bytes', 'as_str', 'as_ref') and not args:
-                if tr in ('bytes', 'tok', 'ptr'): return k(r, tr)
+                if tr in BYTESLIKE: return k(r, tr)
                 if tr == 'cow': return k(f"{r}.bytes", 'bytes')
             if name == 'encoded' and not args and tr == 'tok': return k(r, 'bytes')
             if name == 'into' and not args and tr == 'intocow': return k(f"(Cow.borrowed {r})", 'cow')
@@ -392,6 +450,62 @@ class Fn:
             if name == 'checked_add' and len(args) == 1 and tr == 'nat':
                 return self.E(args[0], env, ctx, lambda a, ta: k(f"(if {r} + {a} ≤ usizeMax then some ({r} + {a}) else none)", 'optnat'))
             if name == 'into_inner' and not args and tr.startswith('tuple:'): return k(r, tr)
+            # ---- &Pointer / &str receivers -------------------------------------------------------
+            if tr in BYTESLIKE:
+                if name in SIBLINGS and tr == 'ptrself':
+                    lname, lty = SIBLINGS[name]
+                    def go(i, acc):
+                        if i == len(args): return k(f"({lname} {' '.join([r] + acc)})", lty)
+                        return self.E(args[i], env, ctx, lambda a, ta: go(i + 1, acc + [a]))
+                    return go(0, [])
+                if name in ('rsplit_once', 'split_once', 'find', 'rfind') and len(args) == 1 and args[0][0] == 'char':
+                    fn = {'rsplit_once': 'rsplitOnce', 'split_once': 'splitOnce', 'find': 'find', 'rfind': 'rfind'}[name]
+                    ty = 'optnat' if name in ('find', 'rfind') else 'opt(tuple:bytes,bytes)'
+                    return self.E(args[0], env, ctx, lambda c, _: k(f"({fn} {c} {r})", ty))
+                if name in ('strip_suffix', 'strip_prefix', 'starts_with', 'ends_with') and len(args) == 1:
+                    if args[0][0] == 'char':
+                        if name == 'starts_with': return self.E(args[0], env, ctx, lambda c, _: k(f"({r}.head? == some {c})", 'bool'))
+                        raise Unsupported(name + " with a char")
+                    fn = {'strip_suffix': 'stripSuffix', 'strip_prefix': 'stripPrefix', 'starts_with': 'startsWith', 'ends_with': 'endsWith'}[name]
+                    ty = 'opt(bytes)' if name.startswith('strip') else 'bool'
+                    def aft(a, ta):
+                        if ta not in BYTESLIKE: raise Unsupported(name + " with " + ta)
+                        return k(f"({fn} {r} {a})", ty)
+                    return self.E(args[0], env, ctx, aft)
+                if name == 'is_empty' and not args: return k(f"{r}.isEmpty", 'bool')
+                if name == 'split_at' and len(args) == 1 and tr != 'ptrself':
+                    return self.E(args[0], env, ctx, lambda n, _: k(f"({r}.take {n}, {r}.drop {n})", 'tuple:bytes,bytes'))
+                if name == 'get' and len(args) == 1 and args[0][0] != 'range':
+                    return self.E(args[0], env, ctx, lambda i, ti: k(f"{r}[{i}]?", 'optnat') if ti == 'nat' else self.bad("get(" + ti + ")"))
+                if name == 'tokens' and not args and tr == 'ptrself': return k(f"(tokens {r})", 'toklist')
+            if tr == 'toklist':
+                if name == 'count' and not args: return k(f"{r}.length", 'nat')
+                if name == 'zip' and len(args) == 1:
+                    return self.E(args[0], env, ctx, lambda a, ta: k(f"(List.zip {r} {a})", 'zip') if ta == 'toklist' else self.bad("zip with " + ta))
+            if name == 'into' and not args and self.rtype.startswith('Option') and not is_opt(tr) and tr != 'intocow':
+                return k(f"(some {r})", mk_opt('bytes' if tr in BYTESLIKE else tr))
+            # ---- Option combinators ----------------------------------------------------------------
+            if is_opt(tr):
+                inner = opt_inner(tr)
+                if name in ('copied', 'cloned') and not args: return k(r, tr)
+                if name in ('map', 'filter') and len(args) == 1 and args[0][0] == 'closure':
+                    pat, env2 = self.closure_head(args[0], inner, env)
+                    if name == 'filter':
+                        return k(f"(Option.filter (fun {pat} => {self.B(args[0][2], env2)}) {r})", tr)
+                    body, tb = self.term(args[0][2], env2)
+                    return k(f"(Option.map (fun {pat} => {body}) {r})", mk_opt('bytes' if tb in BYTESLIKE else tb))
+                if name in ('map_or_else', 'map_or') and len(args) == 2 and args[1][0] == 'closure':
+                    if name == 'map_or_else':
+                        if args[0][0] != 'closure' or args[0][1]: raise Unsupported("map_or_else default")
+                        d, td = self.term(args[0][2], env)
+                    else: d, td = self.term(args[0], env)
+                    pat, env2 = self.closure_head(args[1], inner, env)
+                    body, tb = self.term(args[1][2], env2)
+                    tb = 'bytes' if tb in BYTESLIKE else tb; td = 'bytes' if td in BYTESLIKE else td
+                    if tb != td: raise Unsupported(f"map_or branches of different types ({td} / {tb})")
+                    return k(paren(f"match {r} with\n| none => {d}\n| some {pat} => {body}"), tb)
+                if name in ('is_some', 'is_none') and not args:
+                    return k(f"{r}.isSome" if name == 'is_some' else f"{r}.isNone", 'bool')
             raise Unsupported(f"method {name} on {tr}")
         return self.E(recv, env, ctx, after)
 
@@ -409,12 +523,14 @@ class Fn:
                     return self.E(hi, env, ctx, lambda b, _: withhi(b))
                 if lo is None: return withlo('0')
                 return self.E(lo, env, ctx, lambda a, _: withlo(a))
-            if tr in ('bytes', 'tok'):
+            if tr in ('bytes', 'tok', 'ptrself'):
                 # sub-slice of a local byte buffer: take/drop (a start beyond the end is not modelled as a panic here)
                 if lo is not None and hi is not None: raise Unsupported("two-sided sub-slice")
                 if lo is None and hi is None: return k(r, 'bytes')
                 if lo is None: return self.E(hi, env, ctx, lambda b, _: k(f"({r}.take {b})", 'bytes'))
                 return self.E(lo, env, ctx, lambda a, _: k(f"({r}.drop {a})", 'bytes'))
+            if tr == 'ptr' and self.retkind != 'optres':
+                raise Unsupported("view of a pointer outside an Option-returning function")
             raise Unsupported("slice of " + tr)
         return self.E(recv, env, ctx, after)
 
@@ -739,8 +855,13 @@ class Fn:
                 if ta == 'optres-call': return ctx.ret(a)
                 raise Unsupported("returned " + ta)
             return self.E(e, env, ctx, after)
+        if rk == 'resval':
+            # a bool-valued function whose evaluation can panic (checked index inside the condition)
+            return self.C(e, env, ctx, ctx.ret('.ok true'), ctx.ret('.ok false'))
+        if rk == 'pure' and self.rtype.startswith('Option') and t == 'path' and e[1] == ['None']:
+            return ctx.ret('none')
         if rk == 'pure':
-            want = {'Cow': ('cow',), 'Nat': ('nat',)}.get(self.rtype)
+            want = {'Cow': ('cow',), 'Nat': ('nat',), 'Bool': ('bool',)}.get(self.rtype)
             def after(a, ta):
                 if want and ta not in want:
                     if self.rtype == 'Cow' and ta == 'bytes' : raise Unsupported("returning bytes where a Cow is expected")
@@ -780,8 +901,14 @@ class Fn:
         xs, tys = out[0]
         enum = tys.startswith('enum:')
         if enum: tys = tys.split(':')[1]
-        if tys not in ('bytes', 'toklist'): raise Unsupported("iteration over " + tys)
+        if tys not in ('bytes', 'toklist', 'zip'): raise Unsupported("iteration over " + tys)
         elt = 'nat' if tys == 'bytes' else 'tok'
+        zipped = None
+        if tys == 'zip':
+            if enum or pat[0] != 'ptuple' or len(pat[1]) != 2 or any(self.strip_ref(q)[0] != 'pbind' for q in pat[1]):
+                raise Unsupported("zip loop pattern")
+            zipped = [self.strip_ref(q)[1] for q in pat[1]]
+            pat = ('pbind', '_zx')
         if enum:
             if pat[0] != 'ptuple' or len(pat[1]) != 2: raise Unsupported("enumerate pattern")
             ip, xp = self.strip_ref(pat[1][0]), self.strip_ref(pat[1][1])
@@ -805,11 +932,17 @@ class Fn:
         call = lambda env3: f"{lname} {' '.join(caps + [rest_name] + ([f'({iname} + 1)'] if enum else []) + muts)}".rstrip()
         env_b = dict(env); env_b[xname] = elt
         if enum: env_b[iname] = 'nat'
+        if zipped:
+            del env_b[xname]
+            for z in zipped: env_b[z] = 'tok'
+            xname = f"({zipped[0]}, {zipped[1]})"
+            for z in zipped:
+                if z in env: raise Unsupported("loop variable shadows " + z)
         ctx_b = Ctx((lambda t: f".ret ({t})") if has_ret else (lambda t: self.bad("return in a loop without Flow")),
                     cont=call, brk=lambda env3: done(sigma))
         body_code = self.S(body, env_b, ctx_b, call)
         params = ''.join(f" ({c} : {self.lty(env, c)})" for c in caps)
-        argtys = [f"List {LEANTY[elt]}"] + (['Nat'] if enum else []) + [self.lty(env, v) for v in muts]
+        argtys = [f"List {LEANTY[elt]}" if not zipped else "List (Bytes × Bytes)"] + (['Nat'] if enum else []) + [self.lty(env, v) for v in muts]
         nilpat = ', '.join(['[]'] + (['_'] if enum else []) + muts)
         conspat = ', '.join([f"{xname} :: {rest_name}"] + ([iname] if enum else []) + muts)
         self.loops.append(
@@ -871,7 +1004,8 @@ class Fn:
             elif rep == 'tokself':
                 lparams.append(('self', 'tokself')); env['self.inner'] = 'alias:self:tok'
             else:
-                lparams.append((pname, rep)); env[pname] = rep
+                ln = pname + '_' if pname in LEANKW else pname
+                lparams.append((ln, rep)); env[ln] = rep
         if len(rnames) != len(spec['params']): raise Unsupported(f"parameter list changed: {rnames}")
         ctx = Ctx(lambda t: t)
         body = self.to_return(self.block)
